@@ -571,19 +571,60 @@ fn oaig_json<L: flussab_aiger::Lit>(a: &flussab_aiger::aig::OrderedAig<L>) -> Va
         match &a.comment { Some(c) => json!(["comment", bytes_json(c.as_bytes())]), None => json!(["nocomment"]) }])
 }
 
+/// the value parse() returned, entry by entry in file order: the same items the section readers hand out
+fn emit_flat(items: Vec<Value>) {
+    for it in items {
+        trace::rec(json!({"ev":"pitem","item":it}));
+    }
+}
 fn run_aag_parse<L: flussab_aiger::Lit + 'static>(reader: Input) {
     use flussab_aiger::ascii as m;
+    let mut flat: Vec<Value> = vec![];
     call("parse", || match construct!(m::Parser::<L>, reader, m::Config::default()).and_then(|p| p.parse()) {
-        Ok(a) => json!({"res":"ok","item":aig_json(&a)}),
+        Ok(a) => {
+            let lit = |l: &L| json!(["lit", num(l.code())]);
+            flat.push(json!(["hdr", num(a.max_var_index), num(a.inputs.len()), num(a.latches.len()), num(a.outputs.len()), num(a.and_gates.len()),
+                num(a.bad_state_properties.len()), num(a.invariant_constraints.len()), num(a.justice_properties.len()), num(a.fairness_constraints.len())]));
+            flat.extend(a.inputs.iter().map(lit));
+            flat.extend(a.latches.iter().map(|l| json!(["latch", num(l.state.code()), num(l.next_state.code()), init_json(l.initialization)])));
+            flat.extend(a.outputs.iter().map(lit));
+            flat.extend(a.bad_state_properties.iter().map(lit));
+            flat.extend(a.invariant_constraints.iter().map(lit));
+            flat.extend(a.justice_properties.iter().map(|j| json!(["size", num(j.len())])));
+            for j in &a.justice_properties { flat.extend(j.iter().map(lit)); }
+            flat.extend(a.fairness_constraints.iter().map(lit));
+            flat.extend(a.and_gates.iter().map(|g| json!(["and", num(g.output.code()), num(g.inputs[0].code()), num(g.inputs[1].code())])));
+            flat.extend(a.symbols.iter().map(sym_json));
+            if let Some(c) = &a.comment { flat.push(json!(["comment", bytes_json(c.as_bytes())])); }
+            json!({"res":"ok","item":aig_json(&a)})
+        }
         Err(e) => aig_err(&e),
     });
+    emit_flat(flat);
 }
 fn run_aig_parse<L: flussab_aiger::Lit + 'static>(reader: Input) {
     use flussab_aiger::binary as m;
+    let mut flat: Vec<Value> = vec![];
     call("parse", || match construct!(m::Parser::<L>, reader, m::Config::default()).and_then(|p| p.parse()) {
-        Ok(a) => json!({"res":"ok","item":oaig_json(&a)}),
+        Ok(a) => {
+            let lit = |l: &L| json!(["lit", num(l.code())]);
+            flat.push(json!(["hdr", num(a.max_var_index), num(a.input_count), num(a.latches.len()), num(a.outputs.len()), num(a.and_gates.len()),
+                num(a.bad_state_properties.len()), num(a.invariant_constraints.len()), num(a.justice_properties.len()), num(a.fairness_constraints.len())]));
+            flat.extend(a.latches.iter().map(|l| json!(["latch", num(l.next_state.code()), init_json(l.initialization)])));
+            flat.extend(a.outputs.iter().map(lit));
+            flat.extend(a.bad_state_properties.iter().map(lit));
+            flat.extend(a.invariant_constraints.iter().map(lit));
+            flat.extend(a.justice_properties.iter().map(|j| json!(["size", num(j.len())])));
+            for j in &a.justice_properties { flat.extend(j.iter().map(lit)); }
+            flat.extend(a.fairness_constraints.iter().map(lit));
+            flat.extend(a.and_gates.iter().map(|g| json!(["and", num(g.inputs[0].code()), num(g.inputs[1].code())])));
+            flat.extend(a.symbols.iter().map(sym_json));
+            if let Some(c) = &a.comment { flat.push(json!(["comment", bytes_json(c.as_bytes())])); }
+            json!({"res":"ok","item":oaig_json(&a)})
+        }
         Err(e) => aig_err(&e),
     });
+    emit_flat(flat);
 }
 
 /// structured encoding of a BTOR2 line (numbers as decimal strings, constants/symbols/comments as bytes)
